@@ -1,8 +1,107 @@
-/- line-protocol handlers for C12 (stub: not built yet) -/
+/- line-protocol handlers for C12 (channel representations) -/
 import Driver.Loop
+import NumqiModel.Channel
 
 namespace Numqi.Driver.C12
+open Numqi Numqi.Channel
 
-def handle (_args : List String) : String := "bad-op"
+def mat (cols : Nat) (l : Array GInt) : Nat → Nat → GInt := fun x y => l.getD (x * cols + y) 0
+def kraus (dout din : Nat) (l : Array GInt) : Nat → Nat → Nat → GInt := fun s a i => l.getD ((s * dout + a) * din + i) 0
+def arr? (s : String) : Option (Array GInt) := (parseGIntList? s).map List.toArray
+def flat (rows cols : Nat) (f : Nat → Nat → GInt) : String :=
+  gintListStr ((List.range rows).flatMap fun x => (List.range cols).map fun y => f x y)
+
+def isqrt? (n : Int) : Option Int :=
+  if n < 0 then none else
+    let r := Nat.sqrt n.toNat
+    if r * r = n.toNat then some (Int.ofNat r) else none
+
+def qiListStr (l : List QI) : String := ";".intercalate (l.map QI.toStr)
+def ofRat (r : Rat) : QI := ⟨r, 0⟩
+
+def handle2 (op din dout m rho : String) : String := Id.run do
+  -- apc / aps
+  let some dout := dout.toNat? | return "bad-op"
+  let some din := din.toNat? | return "bad-op"
+  let some l := arr? m | return "bad-op"
+  let some r := arr? rho | return "bad-op"
+  if r.size ≠ din * din then return "bad-op"
+  if op = "apc" then
+    if l.size ≠ (din * dout) * (din * dout) then return "bad-op"
+    return flat dout dout (applyChoi din dout (mat (din * dout) l) (mat din r))
+  if op = "aps" then
+    if l.size ≠ (dout * dout) * (din * din) then return "bad-op"
+    return flat dout dout (applySuper din dout (mat (din * din) l) (mat din r))
+  return "bad-op"
+
+def handleC2k (din dout evl evc : String) : String := Id.run do
+  -- choi_op_to_kraus_op after an `eigh` that returned the integer data (evl ascending, evc columns)
+  let some dout := dout.toNat? | return "bad-op"
+  let some din := din.toNat? | return "bad-op"
+  let some evl := parseIntList? evl | return "bad-op"
+  let some v := arr? evc | return "bad-op"
+  let n := din * dout
+  if evl.length ≠ n || v.size ≠ n * n then return "bad-op"
+  let n0 := cutCount evl
+  let some ws := (evl.map fun x => if x ≤ 0 then some 0 else isqrt? x).mapM id | return "bad-op"
+  let wA := ws.toArray
+  let w : Nat → GInt := fun k => GInt.ofInt (wA.getD k 0)
+  let K := choiToKraus dout n0 (mat n v) w
+  let nk := n - n0
+  return s!"{nk}|" ++ gintListStr ((List.range nk).flatMap fun s => (List.range dout).flatMap fun a =>
+    (List.range din).map fun i => K s a i)
+
+def handle (args : List String) : String :=
+  match args with
+  | [op, n, dout, din, k] => Id.run do
+      if op = "apc" || op = "aps" then return handle2 op n dout din k
+      if op = "c2k" then return handleC2k n dout din k
+      -- k2c / k2s
+      let some n := n.toNat? | return "bad-op"
+      let some dout := dout.toNat? | return "bad-op"
+      let some din := din.toNat? | return "bad-op"
+      let some l := arr? k | return "bad-op"
+      if l.size ≠ n * dout * din then return "bad-op"
+      let K := kraus dout din l
+      if op = "k2c" then return flat (din * dout) (din * dout) (krausToChoi n dout K)
+      if op = "k2s" then return flat (dout * dout) (din * din) (krausToSuper n din dout K)
+      return "bad-op"
+  | [op, din, dout, m] => Id.run do
+      -- c2s / s2c / hf2c
+      let some dout := dout.toNat? | return "bad-op"
+      let some din := din.toNat? | return "bad-op"
+      let some l := arr? m | return "bad-op"
+      if op = "c2s" then
+        if l.size ≠ (din * dout) * (din * dout) then return "bad-op"
+        return flat (dout * dout) (din * din) (choiToSuper din dout (mat (din * dout) l))
+      if op = "s2c" then
+        if l.size ≠ (dout * dout) * (din * din) then return "bad-op"
+        return flat (din * dout) (din * dout) (superToChoi din dout (mat (din * din) l))
+      if op = "hf2c" then
+        if l.size ≠ (din * dout) * (din * dout) then return "bad-op"
+        return flat (din * dout) (din * dout) (choiOfMap dout (applyChoi din dout (mat (din * dout) l)))
+      return "bad-op"
+  | ["apk", n, dout, din, k, rho] => Id.run do
+      let some n := n.toNat? | return "bad-op"
+      let some dout := dout.toNat? | return "bad-op"
+      let some din := din.toNat? | return "bad-op"
+      let some l := arr? k | return "bad-op"
+      let some r := arr? rho | return "bad-op"
+      if l.size ≠ n * dout * din || r.size ≠ din * din then return "bad-op"
+      return flat dout dout (applyKraus n din (kraus dout din l) (mat din r))
+  | [kind, c0, c1] => Id.run do
+      -- noise channels; c0, c1 are binary64 bit patterns of the two square roots
+      let some c0 := c0.toNat? | return "bad-op"
+      let some c1 := c1.toNat? | return "bad-op"
+      let q0 := ofRat (ratOfFloatBits c0)
+      let q1 := ofRat (ratOfFloatBits c1)
+      let im : QI := ⟨0, 1⟩
+      let out (n : Nat) (K : Nat → Nat → Nat → QI) : String :=
+        qiListStr ((List.range n).flatMap fun s => (List.range 2).flatMap fun a => (List.range 2).map fun i => K s a i)
+      if kind = "deph" then return out 2 (dephasingKraus q0 q1)
+      if kind = "depol" then return out 4 (depolarizingKraus im q0 q1)
+      if kind = "ampd" then return out 2 (amplitudeDampingKraus q0 q1)
+      return "bad-op"
+  | _ => "bad-op"
 
 end Numqi.Driver.C12
